@@ -13,10 +13,17 @@
    The proof goes through a position-free description of the parser: the token stream is
    cut into rows (RoundRows.v), [group] attaches every end-of-line comment to the node of
    its row, and C02_parse_is_group states that the parser of read.go with its comment
-   assignment by byte position computes exactly that (on every input). *)
-From Verif.Base Require Import Bytes.
-From Verif.Modfile Require Import Syntax Lex Parse Print ProofsLexNoLF ProofsRound
-  RoundRows RoundParse RoundLexPure4 RoundMain1 RoundMain3.
+   assignment by byte position computes exactly that (on every input).
+
+   format_preserves_directives is proved for go.mod (Parse) and go.work (ParseWork), without
+   and with a version fixer (any fixer that is idempotent and does not accept a parenthesis
+   or deliver an empty version): C02_format_preserves_directives,
+   C02_format_preserves_directives_mod (fix == nil), C02_format_preserves_directives_work. *)
+From Verif.Base Require Import Bytes Strconv QuoteProofs.
+From Verif.Semver Require Import Model.
+From Verif.Modfile Require Import Syntax Lex Parse Print Directives ProofsLexNoLF ProofsRound
+  RoundRows RoundParse RoundLexPure4 RoundMain1 RoundMain3 RoundTree RoundQuote RoundDir1 RoundDir2 RoundDir3 RoundDir6
+  RoundDir7 RoundDir13 RoundWork.
 
 (* format_reparse_same: the formatted output of an accepted input is accepted again and
    has the same statements, tokens and comment texts in the same order *)
@@ -47,6 +54,133 @@ Theorem C02_group_is_parse : forall data ts a, lex data = (ts, LEnd) ->
   group_file (arows [] ts) = Some a -> exists s, parse data = POk s /\ zfile s = efile a.
 Proof. exact group_parse. Qed.
 Print Assumptions C02_group_is_parse.
+
+(* ---------------------------------------------------------------- directive values
+
+   format_preserves_directives, for go.mod and fix == nil (Modfile/RoundQuote.v, RoundDir*.v):
+   if the strict parser accepts data as f and the values of f are well formed,
+
+     wf_file f :=  the module path, every require/exclude/replace/tool path p satisfies
+                     path_ok p := p is a byte string, p <> "" and p is not a lone ( ) [ ] { } ,
+                   every require/exclude version and every retract bound is a valid semver
+                     (Semver.Model.is_valid), every replace version is "" or valid,
+
+   then the strict parser accepts Format(f.Syntax) (the tree with the rewritten tokens:
+   AutoQuote'd paths, canonical versions) and delivers the same values
+
+     vals f := (module path, version, Deprecated; go; toolchain; godebug key/value;
+                require path/version/Indirect; exclude; replace old/new path and version;
+                retract low/high/Rationale; tool)       -- everything but the Syntax pointers.
+
+   The comment-derived values (Indirect, Deprecated, Rationale) are included: the printer
+   trims every comment, and RoundTrim2.v shows that neither strings.Fields nor TrimSpace
+   of the comment body notices. *)
+Theorem C02_format_preserves_directives_mod : forall data f,
+  parse_to_file true None data = DOk f -> wf_file f ->
+  exists f', parse_to_file true None (format (fd_syntax f)) = DOk f' /\ vals f' = vals f.
+Proof. exact format_preserves_directives_mod. Qed.
+Print Assumptions C02_format_preserves_directives_mod.
+
+(* format_preserves_directives with a version fixer.  [fixer_ok fx] (RoundDir1.v): fx = nil, or
+   fx can be applied to its own output (fix p x = y -> fix p y = y), never delivers an empty
+   version and does not turn a parenthesis token into a version.
+   - go.mod (Parse): every file, every such fixer.  Retract directives are read twice by
+     parseToFile (File.add with dontFixRetract, then fixRetract through the Syntax pointers
+     with the fixer); RoundDir8-13.v show that this is the statement loop with one combined
+     step per retract line, for which the round trip is proved like for the other directives.
+     wf_file f speaks of the final values only (the retract bounds after fixing).
+   - go.work (ParseWork): every file, every such fixer.
+       wf_work f := every use path is path_ok, every replace is well formed as above;
+       valsW f   := go, toolchain, godebug, use path/module path, replace values. *)
+Theorem C02_format_preserves_directives : forall fx data f, fixer_ok fx ->
+  parse_to_file true fx data = DOk f -> wf_file f ->
+  exists f', parse_to_file true fx (format (fd_syntax f)) = DOk f' /\ vals f' = vals f.
+Proof. exact format_preserves_directives_mod_any. Qed.
+Print Assumptions C02_format_preserves_directives.
+
+Theorem C02_format_preserves_directives_work : forall fx data f, fixer_ok fx ->
+  parse_work fx data = DOk f -> wf_work f ->
+  exists f', parse_work fx (format (wf_syntax f)) = DOk f' /\ valsW f' = valsW f.
+Proof. intros fx data f Hfx. exact (format_preserves_directives_work fx Hfx data f). Qed.
+Print Assumptions C02_format_preserves_directives_work.
+
+(* non-vacuity: a go.work file with a quoted directory, accepted and well formed; and a sane
+   fixer other than nil: canonicalise valid versions, reject everything else *)
+Example C02_work_example :
+  exists f, parse_work None (B "go 1.21
+use ""./my dir""
+replace example.com/a => ../a
+") = DOk f /\ length (wf_use f) = 1%nat /\ length (wf_replace f) = 1%nat.
+Proof. eexists. split; [vm_compute; reflexivity|split; reflexivity]. Qed.
+
+Definition canon_fixer : fixer :=
+  Some (fun _ v => if Parse.is_nil (canonical_version v) then None else Some (canonical_version v)).
+
+Example C02_canon_fixer_ok : fixer_ok canon_fixer.
+Proof.
+  split; cbn; intros p x y H.
+  - destruct (Parse.is_nil (canonical_version x)) eqn:E; [discriminate|]. injection H as <-.
+    rewrite RoundSemver.canonical_version_idem, E. reflexivity.
+  - destruct (Parse.is_nil (canonical_version x)) eqn:E; [discriminate|]. injection H as <-.
+    split; [|split].
+    + destruct (is_lp x) eqn:El; [|reflexivity]. apply is_lp_eq in El. subst x. discriminate.
+    + destruct (is_rp x) eqn:Er; [|reflexivity]. apply is_rp_eq in Er. subst x. discriminate.
+    + destruct (canonical_version x); [discriminate|discriminate].
+Qed.
+
+(* ... and a go.mod file whose retract directives that fixer rewrites (a block, a quoted
+   bound, an interval): accepted, with valid bounds *)
+Example C02_fixer_retract_example :
+  exists f, parse_to_file true canon_fixer (B "module example.com/m
+retract (
+	v1.0 // broken
+	[""v1.1"", v1.2.0]
+)
+retract v2
+") = DOk f /\
+  map (fun r => (rt_low r, rt_high r)) (fd_retract f) =
+    [(B "v1.0.0", B "v1.0.0"); (B "v1.1.0", B "v1.2.0"); (B "v2.0.0", B "v2.0.0")] /\
+  forallb (fun r => is_valid (rt_low r) && is_valid (rt_high r)) (fd_retract f) = true.
+Proof. eexists. split; [vm_compute; reflexivity|split; vm_compute; reflexivity]. Qed.
+
+(* autoquote_is_one_token: for a byte string u that is not empty and not a lone punctuation
+   character, AutoQuote(u) is the text of one token of the lexer that is not a parenthesis
+   ([ltext]: it was delivered as a token in some context, hence is delivered again behind
+   white space and in front of a space, line feed or closing bracket: RoundLexB2.relex_tok),
+   and parseString reads u back from it and stores the same token again.  Uses
+   strconv's unquote (quote u) = u and the shape of quote u (Base/QuoteProofs.v). *)
+Theorem C02_autoquote_is_one_token : forall u, Forall byte u -> u <> [] -> not_lone u ->
+  ltext (auto_quote u) /\ parse_string (auto_quote u) = Some (u, auto_quote u) /\
+  is_lp (auto_quote u) = false /\ is_rp (auto_quote u) = false.
+Proof. exact auto_quote_token. Qed.
+Print Assumptions C02_autoquote_is_one_token.
+
+(* non-vacuity: a file with quoted paths, a version to canonicalise, an indirect marker and
+   a retract rationale is accepted and well formed *)
+Example C02_directives_example :
+  exists f, parse_to_file true None (B "module ""example.com/m""
+require example.com/a v1.2 // indirect
+retract v1.0.0 // broken
+") = DOk f /\ length (fd_require f) = 1%nat /\ length (fd_retract f) = 1%nat.
+Proof. eexists. split; [vm_compute; reflexivity|split; reflexivity]. Qed.
+
+(* ... and it satisfies the hypotheses of the theorem *)
+Example C02_directives_example_wf :
+  exists f, parse_to_file true None (B "module ""example.com/m""
+require example.com/a v1.2 // indirect
+retract v1.0.0 // broken
+") = DOk f /\ wf_file f.
+Proof.
+  eexists. split; [vm_compute; reflexivity|].
+  assert (Hp : forall p, (2 <= length p)%nat -> Forall byte p -> path_ok p).
+  { intros p Hl Hb. split; [exact Hb|]. split; [destruct p; [cbn in Hl; lia|discriminate]|].
+    intros c E. rewrite E in Hl. cbn in Hl. lia. }
+  unfold wf_file. cbn [fd_module fd_require fd_exclude fd_replace fd_retract fd_tool md_mod mv_path].
+  split; [apply Hp; [cbn; lia|repeat constructor; unfold byte; lia]|].
+  split; [constructor; [|constructor]; split; [apply Hp; [cbn; lia|repeat constructor; unfold byte; lia]|vm_compute; reflexivity]|].
+  split; [constructor|]. split; [constructor|].
+  split; [constructor; [|constructor]; split; vm_compute; reflexivity|constructor].
+Qed.
 
 (* the round trip on all short inputs, evaluated by the kernel (kept from the first
    build; now a special case of the two theorems above) *)
